@@ -1410,6 +1410,36 @@ impl Error {
     }
 }
 
+/// Error messages reflect text taken from the input (keys, values, variant names). Neutralise
+/// control characters so that a rendered error can never drive the terminal: C0 controls
+/// (except line feed and tab) and DEL become their Unicode control pictures, C1 controls
+/// become U+FFFD.
+pub(crate) fn terminal_safe_message(msg: Cow<'_, str>) -> Cow<'_, str> {
+    let is_unsafe = |c: char| {
+        let u = c as u32;
+        (u < 0x20 && c != '\n' && c != '\t') || u == 0x7F || (0x80..=0x9F).contains(&u)
+    };
+    if !msg.chars().any(is_unsafe) {
+        return msg;
+    }
+    let cleaned: String = msg
+        .chars()
+        .map(|c| {
+            let u = c as u32;
+            if u < 0x20 && c != '\n' && c != '\t' {
+                char::from_u32(0x2400 + u).unwrap_or('\u{FFFD}')
+            } else if u == 0x7F {
+                '\u{2421}'
+            } else if (0x80..=0x9F).contains(&u) {
+                '\u{FFFD}'
+            } else {
+                c
+            }
+        })
+        .collect();
+    Cow::Owned(cleaned)
+}
+
 fn fmt_error_plain_with_formatter(
     f: &mut fmt::Formatter<'_>,
     err: &Error,
@@ -1417,7 +1447,7 @@ fn fmt_error_plain_with_formatter(
 ) -> fmt::Result {
     let err = err.without_snippet();
 
-    let msg = formatter.format_message(err);
+    let msg = terminal_safe_message(formatter.format_message(err));
 
     // Validation errors embed per-issue locations in their formatted message (potentially
     // multiple distinct locations). Do not attach a single top-level location suffix here,
@@ -1480,7 +1510,7 @@ fn fmt_error_rendered(
     match err {
         #[cfg(feature = "garde")]
         Error::ValidationErrors { errors } => {
-            let msg = options.formatter.format_message(err);
+            let msg = terminal_safe_message(options.formatter.format_message(err));
             if !msg.is_empty() {
                 writeln!(f, "{}", msg)?;
             }
@@ -1498,7 +1528,7 @@ fn fmt_error_rendered(
 
         #[cfg(feature = "validator")]
         Error::ValidatorErrors { errors } => {
-            let msg = options.formatter.format_message(err);
+            let msg = terminal_safe_message(options.formatter.format_message(err));
             if !msg.is_empty() {
                 writeln!(f, "{}", msg)?;
             }
@@ -1543,7 +1573,7 @@ fn fmt_error_rendered(
             }
             #[cfg(feature = "garde")]
             if let Error::ValidationErrors { errors } = error.as_ref() {
-                let msg = options.formatter.format_message(error);
+                let msg = terminal_safe_message(options.formatter.format_message(error));
                 if !msg.is_empty() {
                     writeln!(f, "{}", msg)?;
                 }
@@ -1578,7 +1608,7 @@ fn fmt_error_rendered(
             }
             #[cfg(feature = "validator")]
             if let Error::ValidatorErrors { errors } = error.as_ref() {
-                let msg = options.formatter.format_message(error);
+                let msg = terminal_safe_message(options.formatter.format_message(error));
                 if !msg.is_empty() {
                     writeln!(f, "{}", msg)?;
                 }
@@ -1623,7 +1653,7 @@ fn fmt_error_rendered(
                     && locs.reference_location != locs.defined_location
             });
 
-            let mut msg = options.formatter.format_message(error);
+            let mut msg = terminal_safe_message(options.formatter.format_message(error));
 
             // Renderer-level de-duplication for AliasError:
             // when we are about to show a secondary “defined here” window, drop the
@@ -1948,7 +1978,7 @@ fn fmt_error_with_snippets_offset(
         );
     }
 
-    let msg = formatter.format_message(err);
+    let msg = terminal_safe_message(formatter.format_message(err));
     let Some(location) = err.location() else {
         return write!(f, "{msg}");
     };
